@@ -32,16 +32,23 @@ def make_cases(rng, tier, budget):
             c0["faults"] = []
             obs, st = seq.impl_run(c0, work)
             log = st["mut_log"]
-            scoped = [k for k, name, _ in log if name in IN_SCOPE]
-            other = [k for k, name, _ in log if name not in IN_SCOPE]
+            # a failure of the undo itself (restore_all's makedirs/replace inside _roll_back) or of the
+            # clean-up after the commit is outside the property: only forward calls are faulted
+            scoped = [k for k, name, _, phase in log if name in IN_SCOPE and phase == "forward"]
             picks = rng.sample(scoped, min(len(scoped), 4 if tier == "quick" else 8))
             # the cache-write calls of the first and of the last build always
-            cw = [k for k, name, _ in log if name in ("gzip.open", "gzip.write")]
+            cw = [k for k, name, _, _ph in log if name in ("gzip.open", "gzip.write")]
             picks = sorted(set(picks) | set(cw[:2]) | set(cw[-2:]))
+            # correspondence only: one call of the undo / clean-up phases
+            # (not rmdir/remove: their order among same-length paths is Python set order, which a
+            # fault would make observable and the model does not reproduce)
+            late = [k for k, name, _, phase in log if phase != "forward" and name in ("makedirs", "replace", "mkdir")]
+            if late:
+                picks.append(rng.choice(late))
             for k in picks:
                 c2 = json.loads(json.dumps(c))
                 c2["faults"] = [k]
-                c2["tag"] = {"fault": k, "call": [nm for kk, nm, _ in log if kk == k][0], "in_scope": k in scoped}
+                c2["tag"] = {"fault": k, "call": [nm for kk, nm, _, _ph in log if kk == k][0], "in_scope": k in scoped or k in cw}
                 out.append(c2)
     finally:
         import shutil
@@ -71,9 +78,23 @@ def oracle_faults(case, obs, stats):
             if not any(a[1] == "CACHE" for a in after.values()):
                 fails.append({"oracle": "cache file written after a successful build", "step": i})
     # the cache stays usable: no later build is refused
+    # (a cache file the history itself corrupted or overwrote is refused for that reason: `tainted`
+    # until a build commits again)
+    tainted = False
+    cache_path = list(case.get("cache") or [])
     for i, st in enumerate(case["history"]):
-        if st[0] == "build" and obs[i][0] == "err:RuntimeError" and not any(l.startswith("invoke <root>") for l in seqprop.log_of(obs[i])):
+        if st[0] == "mutate":
+            for m in st[1]:
+                if m[0] == "corrupt" or (len(m) > 1 and isinstance(m[1], list) and m[1] == cache_path[:len(m[1])]):
+                    tainted = True
+            continue
+        if st[0] != "build":
+            continue
+        refused = obs[i][0] == "err:RuntimeError" and not any(l.startswith("invoke <root>") for l in seqprop.log_of(obs[i]))
+        if refused and not tainted:
             fails.append({"oracle": "the cache file stays usable (a later build is refused)", "step": i})
+        if obs[i][0].startswith("ok:"):
+            tainted = False
     return fails
 
 
